@@ -268,4 +268,419 @@ theorem rangeMap_inv {σ : Type} (x : Seid) (op : Op) (kind : Kind) (body : Nat 
         rw [List.length_erase_of_mem hmem]; omega
       exact ih (keys.erase k) (body k st c).1 (body k st c).2 hlen' (hb keys k st c hmem hr)
 
+/-! ### what the `Sess` methods do to the counts -/
+
+/-- number of QUERY_URR calls for URR `u` of session `x` among the outputs -/
+def qcount (c : Ctx) (x : Seid) (u : Nat) : Nat :=
+  (c.outs.filter fun o => match o with
+    | .dp call _ => call.seid == x && call.op == .query && call.kind == .urr && call.id == u
+    | _ => false).length
+
+theorem qcount_call (c : Ctx) (call : DpCall) (x : Seid) (u : Nat) :
+    qcount (c.call call).1 x u = qcount c x u +
+      (if call.seid == x && call.op == .query && call.kind == .urr && call.id == u then 1 else 0) := by
+  unfold qcount Ctx.call
+  cases c.pending with
+  | nil => simp only [List.filter_append, List.length_append]; congr 1; simp [List.filter]; split <;> simp_all
+  | cons p rest => simp only [List.filter_append, List.length_append]; congr 1; simp [List.filter]; split <;> simp_all
+
+theorem refOf_alSet_self (us : List (Nat × URRInfo)) (u : Nat) (i : URRInfo) : refOf (alSet us u i) u = some i.refPdrNum := by
+  simp [refOf]
+
+theorem refOf_alSet_other (us : List (Nat × URRInfo)) (u v : Nat) (i : URRInfo) (h : v ≠ u) :
+    refOf (alSet us u i) v = refOf us v := by
+  simp [refOf, alGet_alSet_other _ _ _ _ h]
+
+/-- `diassociateURR`: the count of `u` goes down by one (not below 0), nothing else moves; the data plane is queried
+    for `u` exactly when the count was 1 -/
+theorem diassociate_ref (s : Sess) (u : Nat) (c : Ctx) :
+    (s.diassociate u c).1.pdrs = s.pdrs ∧ (s.diassociate u c).1.localID = s.localID ∧
+    (∀ v, refOf (s.diassociate u c).1.urrs v = (refOf s.urrs v).map (· - if v = u then 1 else 0)) ∧
+    (∀ v, qcount (s.diassociate u c).2.1 s.localID v = qcount c s.localID v +
+      (if v = u ∧ refOf s.urrs u = some 1 then 1 else 0)) := by
+  unfold Sess.diassociate
+  cases hg : alGet s.urrs u with
+  | none =>
+    have hr : refOf s.urrs u = none := by simp [refOf, hg]
+    refine ⟨by first | rfl | trivial, by first | rfl | trivial, ?_, ?_⟩
+    · intro v
+      by_cases hv : v = u
+      · subst hv; simp [hr]
+      · simp [hv]
+    · intro v; simp [hr]
+  | some info =>
+    have hr : refOf s.urrs u = some info.refPdrNum := by simp [refOf, hg]
+    by_cases hpos : info.refPdrNum > 0
+    · simp only [hpos, if_true]
+      by_cases h1 : info.refPdrNum - 1 == 0
+      · have h1' : info.refPdrNum = 1 := by have := beq_iff_eq.mp h1; omega
+        simp only [h1, if_true]
+        have key : ∀ (res : Sess × Ctx × List Report),
+            res.1 = { s with urrs := alSet s.urrs u { info with refPdrNum := info.refPdrNum - 1 } } →
+            res.2.1 = (c.call { seid := s.localID, op := .query, kind := .urr, id := u }).1 →
+            res.1.pdrs = s.pdrs ∧ res.1.localID = s.localID ∧
+            (∀ v, refOf res.1.urrs v = (refOf s.urrs v).map (· - if v = u then 1 else 0)) ∧
+            (∀ v, qcount res.2.1 s.localID v = qcount c s.localID v + (if v = u ∧ refOf s.urrs u = some 1 then 1 else 0)) := by
+          intro res e1 e2
+          rw [e1, e2]
+          refine ⟨by first | rfl | trivial, by first | rfl | trivial, ?_, ?_⟩
+          · intro v
+            by_cases hv : v = u
+            · subst hv; simp [refOf_alSet_self, hr]
+            · simp [refOf_alSet_other _ _ _ _ hv, hv]
+          · intro v
+            rw [qcount_call]
+            by_cases hv : v = u
+            · subst hv; simp [hr, h1']
+            · have : (u == v) = false := by simpa using (Ne.symm hv)
+              simp [hv, this]
+        split <;> exact key _ rfl rfl
+      · simp only [h1, Bool.false_eq_true, if_false]
+        have h1' : info.refPdrNum ≠ 1 := by
+          intro e; rw [e] at h1; simp at h1
+        refine ⟨by first | rfl | trivial, by first | rfl | trivial, ?_, ?_⟩
+        · intro v
+          by_cases hv : v = u
+          · subst hv; simp [refOf_alSet_self, hr]
+          · simp [refOf_alSet_other _ _ _ _ hv, hv]
+        · intro v
+          simp [hr, h1']
+    · simp only [hpos, if_false]
+      have h0 : info.refPdrNum = 0 := by omega
+      refine ⟨by first | rfl | trivial, by first | rfl | trivial, ?_, ?_⟩
+      · intro v
+        by_cases hv : v = u
+        · subst hv; simp [hr, h0]
+        · simp [hv]
+      · intro v; simp [hr, h0]
+
+/-- the dissociation loop over a set of URR ids, in whatever order the map iteration takes: every listed URR loses one
+    reference, and exactly those whose count was 1 are queried, once -/
+theorem diassociateAll_ref (s : Sess) (us : List Nat) (hn : us.Nodup) (c : Ctx) :
+    (s.diassociateAll us c).1.pdrs = s.pdrs ∧ (s.diassociateAll us c).1.localID = s.localID ∧
+    (∀ v, refOf (s.diassociateAll us c).1.urrs v = (refOf s.urrs v).map (· - if v ∈ us then 1 else 0)) ∧
+    (∀ v, qcount (s.diassociateAll us c).2.1 s.localID v = qcount c s.localID v +
+      (if v ∈ us ∧ refOf s.urrs v = some 1 then 1 else 0)) := by
+  let body : Nat → Sess × List Report → Ctx → (Sess × List Report) × Ctx := fun u acc c =>
+      let (s2, c2, r) := acc.1.diassociate u c
+      ((s2, acc.2 ++ r), c2)
+  let R : List Nat → Sess × List Report → Ctx → Prop := fun keys st c' =>
+    keys.Nodup ∧ (∀ k ∈ keys, k ∈ us) ∧ st.1.pdrs = s.pdrs ∧ st.1.localID = s.localID ∧
+    (∀ v, refOf st.1.urrs v = (refOf s.urrs v).map (· - if v ∈ us ∧ v ∉ keys then 1 else 0)) ∧
+    (∀ v, qcount c' s.localID v = qcount c s.localID v + (if v ∈ us ∧ v ∉ keys ∧ refOf s.urrs v = some 1 then 1 else 0))
+  have hb : ∀ keys k st c', k ∈ keys → R keys st c' → R (keys.erase k) (body k st c').1 (body k st c').2 := by
+    intro keys k st c' hk ⟨hnd, hsub, hp, hl, hr, hq⟩
+    obtain ⟨d1, d2, d3, d4⟩ := diassociate_ref st.1 k c'
+    have hkus : k ∈ us := hsub k hk
+    have hknot : k ∉ keys.erase k := fun h => ((List.Nodup.mem_erase_iff hnd).mp h).1 rfl
+    have hrk : refOf st.1.urrs k = refOf s.urrs k := by
+      rw [hr k]; simp only [hk, not_true_eq_false, and_false, if_false]
+      cases refOf s.urrs k <;> simp
+    refine ⟨List.Nodup.erase k hnd, fun j hj => hsub j (List.mem_of_mem_erase hj), ?_, ?_, ?_, ?_⟩
+    · show (st.1.diassociate k c').1.pdrs = s.pdrs
+      rw [d1, hp]
+    · show (st.1.diassociate k c').1.localID = s.localID
+      rw [d2, hl]
+    · intro v
+      show refOf (st.1.diassociate k c').1.urrs v = _
+      rw [d3 v, hr v]
+      cases refOf s.urrs v with
+      | none => rfl
+      | some n =>
+        simp only [Option.map_some, Option.some.injEq]
+        by_cases hv : v = k
+        · subst hv; simp [hk, hkus, hknot]
+        · have : v ∈ keys.erase k ↔ v ∈ keys := List.mem_erase_of_ne hv
+          simp [hv, this]
+    · intro v
+      show qcount (st.1.diassociate k c').2.1 s.localID v = _
+      have := d4 v
+      rw [hl] at this
+      rw [this, hq v, hrk]
+      by_cases hv : v = k
+      · subst hv; simp [hk, hkus, hknot]
+      · have : v ∈ keys.erase k ↔ v ∈ keys := List.mem_erase_of_ne hv
+        simp [hv, this]
+  have h0 : R us (s, []) c := by
+    refine ⟨hn, fun _ h => h, rfl, rfl, ?_, ?_⟩
+    · intro v
+      cases refOf s.urrs v with
+      | none => rfl
+      | some n => by_cases h : v ∈ us <;> simp [h]
+    · intro v; by_cases h : v ∈ us <;> simp [h]
+  have hfin := rangeMap_inv s.localID .query .urr body R hb us.length us (s, []) c (Nat.le_refl _) h0
+  obtain ⟨_, _, hp, hl, hr, hq⟩ := hfin
+  have e1 : (s.diassociateAll us c).1 = (rangeMap s.localID .query .urr body us.length us (s, []) c).1.1 := rfl
+  have e2 : (s.diassociateAll us c).2.1 = (rangeMap s.localID .query .urr body us.length us (s, []) c).2 := rfl
+  rw [e1, e2]
+  refine ⟨hp, hl, ?_, ?_⟩
+  · intro v; rw [hr v]; simp
+  · intro v; rw [hq v]; simp
+
+theorem contains_iff (l : List Nat) (u : Nat) : l.contains u = true ↔ u ∈ l := by simp
+
+theorem refs_alSet (pdrs : List (Nat × List Nat)) (k : Nat) (new : List Nat) (u : Nat) :
+    refs (alSet pdrs k new) u + hit (fun us => us.contains u) (alGet pdrs k) = refs pdrs u + (if u ∈ new then 1 else 0) := by
+  have := cnt_alSet (fun us : List Nat => us.contains u) pdrs k new
+  simpa [refs] using this
+
+theorem refs_alDel (pdrs : List (Nat × List Nat)) (k : Nat) (u : Nat) (hn : (pdrs.map (·.1)).Nodup) :
+    refs (alDel pdrs k) u + hit (fun us => us.contains u) (alGet pdrs k) = refs pdrs u :=
+  cnt_alDel (fun us : List Nat => us.contains u) pdrs k hn
+
+theorem hit_some (u : Nat) (us : List Nat) : hit (fun l : List Nat => l.contains u) (some us) = if u ∈ us then 1 else 0 := by
+  simp [hit]
+
+/-- a PDR naming `u` exists, so at least one PDR names it -/
+theorem refs_pos (pdrs : List (Nat × List Nat)) (k : Nat) (us : List Nat) (u : Nat)
+    (hg : alGet pdrs k = some us) (hu : u ∈ us) : 0 < refs pdrs u := by
+  have hm := alGet_mem pdrs k us hg
+  unfold refs cnt
+  apply List.length_pos_of_mem (a := (k, us))
+  simp [hm, hu]
+
+theorem createURR_ref (s : Sess) (ie : RuleIE) (c : Ctx) (h : RefInv s) : RefInv (s.createURR ie c).1 := by
+  unfold Sess.createURR
+  cases hid : ie.id with
+  | none => exact h
+  | some id =>
+    refine ⟨h.keys, h.sets, ?_⟩
+    intro u n hn
+    simp only [] at hn
+    by_cases hu : u = id
+    · subst hu
+      rw [refOf_alSet_self] at hn
+      simp only [Option.some.injEq] at hn
+      rw [← hn]; rfl
+    · rw [refOf_alSet_other _ _ _ _ hu] at hn
+      exact h.count u n hn
+
+theorem createPDR_ref (s : Sess) (ie : RuleIE) (c : Ctx) (h : RefInv s) (hfresh : alGet s.pdrs (ie.id.getD 0) = none) :
+    RefInv (s.createPDR ie c).1 := by
+  unfold Sess.createPDR
+  refine ⟨keys_alSet_nodup _ _ _ h.keys, ?_, ?_⟩
+  · intro p hp
+    rcases mem_alSet_val _ _ _ _ hp with e | e
+    · rw [e]; exact nodup_eraseDups _
+    · exact h.sets p e
+  · intro u n hn
+    simp only [] at hn
+    rw [refOf_foldl_bumpRef _ (nodup_eraseDups _)] at hn
+    have hr := refs_alSet s.pdrs (ie.id.getD 0) ie.urrs.eraseDups u
+    rw [hfresh] at hr
+    simp only [hit, Nat.add_zero] at hr
+    show n = refs (alSet s.pdrs (ie.id.getD 0) ie.urrs.eraseDups) u
+    cases h0 : refOf s.urrs u with
+    | none => rw [h0] at hn; simp at hn
+    | some n0 =>
+      rw [h0] at hn
+      simp only [Option.map_some, Option.some.injEq] at hn
+      have := h.count u n0 h0
+      omega
+
+theorem removePDR_ref (s : Sess) (ie : RuleIE) (c : Ctx) (h : RefInv s) : RefInv (s.removePDR ie c).1 := by
+  unfold Sess.removePDR
+  cases hid : ie.id with
+  | none => exact h
+  | some pdrid =>
+    simp only []
+    cases hg : alGet s.pdrs pdrid with
+    | none => exact h
+    | some us =>
+      simp only []
+      rcases hc : c.call { seid := s.localID, op := .remove, kind := .pdr, id := pdrid } with ⟨c1, a⟩
+      simp only []
+      cases hok : a.ok with
+      | false => simpa using h
+      | true =>
+        simp only [Bool.not_true, Bool.false_eq_true, if_false]
+        have hus : us.Nodup := h.sets (pdrid, us) (alGet_mem _ _ _ hg)
+        obtain ⟨d1, _, d3, _⟩ := diassociateAll_ref ({ s with pdrs := alDel s.pdrs pdrid, q := alDel s.q pdrid } : Sess) us hus c1
+        refine ⟨?_, ?_, ?_⟩
+        · rw [d1]; exact keys_alDel_nodup _ _ h.keys
+        · rw [d1]; intro p hp
+          exact h.sets p (List.mem_filter.mp hp).1
+        · intro u n hn
+          rw [d3 u] at hn
+          rw [d1]
+          have hr := refs_alDel s.pdrs pdrid u h.keys
+          rw [hg, hit_some] at hr
+          show n = refs (alDel s.pdrs pdrid) u
+          cases h0 : refOf s.urrs u with
+          | none => simp only [] at hn; rw [h0] at hn; simp at hn
+          | some n0 =>
+            simp only [] at hn
+            rw [h0] at hn
+            simp only [Option.map_some, Option.some.injEq] at hn
+            have := h.count u n0 h0
+            omega
+
+theorem updatePDR_ref (s : Sess) (ie : RuleIE) (c : Ctx) (h : RefInv s) : RefInv (s.updatePDR ie c).1 := by
+  unfold Sess.updatePDR
+  simp only []
+  cases hg : alGet s.pdrs (ie.id.getD 0) with
+  | none => exact h
+  | some old =>
+    simp only []
+    rcases hc : c.call { seid := s.localID, op := .update, kind := .pdr, id := ie.id.getD 0 } with ⟨c1, a⟩
+    simp only []
+    cases hok : a.ok with
+    | false => simpa using h
+    | true =>
+      simp only [Bool.not_true, Bool.false_eq_true, if_false]
+      have hold : old.Nodup := h.sets (ie.id.getD 0, old) (alGet_mem _ _ _ hg)
+      have hL : (old.filter (· ∉ ie.urrs.eraseDups)).Nodup := List.Nodup.sublist List.filter_sublist hold
+      have hA : (ie.urrs.eraseDups.filter (· ∉ old)).Nodup := List.Nodup.sublist List.filter_sublist (nodup_eraseDups _)
+      obtain ⟨d1, _, d3, _⟩ := diassociateAll_ref s (old.filter (· ∉ ie.urrs.eraseDups)) hL c1
+      rcases hd : s.diassociateAll (old.filter (· ∉ ie.urrs.eraseDups)) c1 with ⟨s2, c2, rs⟩
+      rw [hd] at d1 d3
+      simp only [] at d1 d3 ⊢
+      refine ⟨?_, ?_, ?_⟩
+      · show ((alSet s2.pdrs (ie.id.getD 0) ie.urrs.eraseDups).map (·.1)).Nodup
+        rw [d1]; exact keys_alSet_nodup _ _ _ h.keys
+      · intro p hp
+        have hp' : p ∈ alSet s2.pdrs (ie.id.getD 0) ie.urrs.eraseDups := hp
+        rw [d1] at hp'
+        rcases mem_alSet_val _ _ _ _ hp' with e | e
+        · rw [e]; exact nodup_eraseDups _
+        · exact h.sets p e
+      · intro u n hn
+        have hn' : refOf ((ie.urrs.eraseDups.filter (· ∉ old)).foldl bumpRef s2.urrs) u = some n := hn
+        rw [refOf_foldl_bumpRef _ hA, d3 u] at hn'
+        show n = refs (alSet s2.pdrs (ie.id.getD 0) ie.urrs.eraseDups) u
+        rw [d1]
+        have hr := refs_alSet s.pdrs (ie.id.getD 0) ie.urrs.eraseDups u
+        rw [hg, hit_some] at hr
+        cases h0 : refOf s.urrs u with
+        | none => rw [h0] at hn'; simp at hn'
+        | some n0 =>
+          rw [h0] at hn'
+          simp only [Option.map_some, Option.some.injEq, List.mem_filter, decide_eq_true_eq, decide_not] at hn'
+          have hc0 := h.count u n0 h0
+          have hpos : u ∈ old → 0 < refs s.pdrs u := refs_pos s.pdrs _ old u hg
+          by_cases ha : u ∈ old <;> by_cases hb : u ∈ ie.urrs.eraseDups <;> simp [ha, hb] at hn' hr hpos <;> omega
+
+theorem removeURR_ref (s : Sess) (ie : RuleIE) (c : Ctx) (h : RefInv s) : RefInv (s.removeURR ie c).1 := by
+  unfold Sess.removeURR
+  cases hid : ie.id with
+  | none => exact h
+  | some id =>
+    simp only []
+    cases hg : alGet s.urrs id with
+    | none => exact h
+    | some info =>
+      have key : RefInv ({ s with urrs := alSet s.urrs id { info with removed := true } } : Sess) := by
+        refine ⟨h.keys, h.sets, ?_⟩
+        intro u n hn
+        by_cases hu : u = id
+        · subst hu
+          rw [refOf_alSet_self] at hn
+          exact h.count u n (by simpa [refOf, hg] using hn)
+        · rw [refOf_alSet_other _ _ _ _ hu] at hn
+          exact h.count u n hn
+      simp only []
+      split <;> exact key
+
+theorem updateURR_ref (s : Sess) (ie : RuleIE) (c : Ctx) (h : RefInv s) : RefInv (s.updateURR ie c).1 := by
+  unfold Sess.updateURR
+  cases hid : ie.id with
+  | none => exact h
+  | some id =>
+    simp only []
+    cases hg : alGet s.urrs id with
+    | none => exact h
+    | some info =>
+      have hsame : (info.applyUpdate ie).refPdrNum = info.refPdrNum := by
+        unfold URRInfo.applyUpdate
+        cases ie.meth with
+        | none => cases ie.mnop <;> rfl
+        | some dv => cases ie.mnop <;> rfl
+      have key : RefInv ({ s with urrs := alSet s.urrs id (info.applyUpdate ie) } : Sess) := by
+        refine ⟨h.keys, h.sets, ?_⟩
+        intro u n hn
+        by_cases hu : u = id
+        · subst hu
+          rw [refOf_alSet_self, hsame] at hn
+          exact h.count u n (by simpa [refOf, hg] using hn)
+        · rw [refOf_alSet_other _ _ _ _ hu] at hn
+          exact h.count u n hn
+      simp only []
+      split <;> exact key
+
+theorem queryURR_ref (s : Sess) (ie : RuleIE) (c : Ctx) (h : RefInv s) : RefInv (s.queryURR ie c).1 := by
+  unfold Sess.queryURR
+  cases hid : ie.id with
+  | none => exact h
+  | some id =>
+    simp only []
+    cases hg : alGet s.urrs id with
+    | none => exact h
+    | some info => simp only []; split <;> exact h
+
+/-- under the invariant, "the recorded count is 1" says: the session knows the URR and exactly one PDR names it -/
+theorem refOf_one_iff (s : Sess) (h : RefInv s) (v : Nat) :
+    refOf s.urrs v = some 1 ↔ (alGet s.urrs v).isSome = true ∧ refs s.pdrs v = 1 := by
+  constructor
+  · intro h1
+    refine ⟨?_, (h.count v 1 h1).symm⟩
+    unfold refOf at h1
+    cases hg : alGet s.urrs v with
+    | none => rw [hg] at h1; simp at h1
+    | some _ => rfl
+  · intro ⟨hk, hr⟩
+    cases hg : alGet s.urrs v with
+    | none => rw [hg] at hk; simp at hk
+    | some info =>
+      have : refOf s.urrs v = some info.refPdrNum := by simp [refOf, hg]
+      rw [this, h.count v _ this, hr]
+
+/-- Remove PDR (accepted by the data plane): the URRs queried are exactly those the PDR named whose count was 1, once each -/
+theorem removePDR_queries (s : Sess) (ie : RuleIE) (c : Ctx) (h : RefInv s) (pdrid : Nat) (us : List Nat)
+    (hid : ie.id = some pdrid) (hg : alGet s.pdrs pdrid = some us)
+    (hok : (c.call { seid := s.localID, op := .remove, kind := .pdr, id := pdrid }).2.ok = true) (v : Nat) :
+    qcount (s.removePDR ie c).2.1 s.localID v =
+      qcount c s.localID v + (if v ∈ us ∧ refOf s.urrs v = some 1 then 1 else 0) := by
+  unfold Sess.removePDR
+  simp only [hid, hg]
+  rcases hc : c.call { seid := s.localID, op := .remove, kind := .pdr, id := pdrid } with ⟨c1, a⟩
+  rw [hc] at hok
+  simp only [] at hok
+  simp only [hok, Bool.not_true, Bool.false_eq_true, if_false]
+  have hus : us.Nodup := h.sets (pdrid, us) (alGet_mem _ _ _ hg)
+  obtain ⟨_, _, _, d4⟩ := diassociateAll_ref ({ s with pdrs := alDel s.pdrs pdrid, q := alDel s.q pdrid } : Sess) us hus c1
+  have := d4 v
+  simp only [] at this
+  rw [this]
+  have hq : qcount c1 s.localID v = qcount c s.localID v := by
+    have := qcount_call c { seid := s.localID, op := .remove, kind := .pdr, id := pdrid } s.localID v
+    rw [hc] at this
+    simpa using this
+  rw [hq]
+
+/-- Update PDR (accepted): the URRs queried are exactly those the old list named, the new list does not, whose count was 1 -/
+theorem updatePDR_queries (s : Sess) (ie : RuleIE) (c : Ctx) (h : RefInv s) (old : List Nat)
+    (hg : alGet s.pdrs (ie.id.getD 0) = some old)
+    (hok : (c.call { seid := s.localID, op := .update, kind := .pdr, id := ie.id.getD 0 }).2.ok = true) (v : Nat) :
+    qcount (s.updatePDR ie c).2.1 s.localID v =
+      qcount c s.localID v + (if (v ∈ old ∧ v ∉ ie.urrs.eraseDups) ∧ refOf s.urrs v = some 1 then 1 else 0) := by
+  unfold Sess.updatePDR
+  simp only [hg]
+  rcases hc : c.call { seid := s.localID, op := .update, kind := .pdr, id := ie.id.getD 0 } with ⟨c1, a⟩
+  rw [hc] at hok
+  simp only [] at hok
+  simp only [hok, Bool.not_true, Bool.false_eq_true, if_false]
+  have hold : old.Nodup := h.sets (ie.id.getD 0, old) (alGet_mem _ _ _ hg)
+  have hL : (old.filter (· ∉ ie.urrs.eraseDups)).Nodup := List.Nodup.sublist List.filter_sublist hold
+  obtain ⟨_, _, _, d4⟩ := diassociateAll_ref s (old.filter (· ∉ ie.urrs.eraseDups)) hL c1
+  rcases hd : s.diassociateAll (old.filter (· ∉ ie.urrs.eraseDups)) c1 with ⟨s2, c2, rs⟩
+  rw [hd] at d4
+  simp only [] at d4 ⊢
+  rw [d4 v]
+  have hq : qcount c1 s.localID v = qcount c s.localID v := by
+    have := qcount_call c { seid := s.localID, op := .update, kind := .pdr, id := ie.id.getD 0 } s.localID v
+    rw [hc] at this
+    simpa using this
+  rw [hq]
+  simp [List.mem_filter]
+
 end UpfVerif.Core
